@@ -94,6 +94,46 @@ def gen_blocks(tier, seed):
     return cmds, rs, {"enumerated": len(xs), "simulated": len(sim), "literal_push0": len(HAND_ITEMS), "real_with_zero_push": len(real)}
 
 
+SFS_TEXTS = ["PUSH 5 PUSH 5 SUB PUSH 7 MSTORE DUP1 XOR", "PUSH 1 PUSH 1 SUB PUSH 5 ADD DUP2 MUL", "DUP1 DUP1 XOR SWAP1 POP", "PUSH 0 DUP2 MUL SWAP1 POP",
+             "PUSH 3 PUSH 3 SUB PUSH 0 SSTORE", "DUP1 DUP1 SUB PUSH 1 SSTORE POP", "PUSH 0 PUSH 0 ADD PUSH 2 ADD"]
+
+
+def sfs_mode_cases(tier, seed, texts):
+    """the -sfs input mode across option sets: specifications written by a run with one PUSH0 setting (front-end only) are optimized
+    by optimize_block under the other setting and under the same one; the tool's rebuilt original block, the chosen sequence and the
+    tool's prices are judged by the same clauses as the blocks of the pipeline"""
+    texts = SFS_TEXTS + corpus.sample(texts, 60 if tier == "quick" else 600, seed)
+    first = pool.run_matrix([(["-greedy"], [{"cmd": "sfs", "text": t} for t in texts]), (["-greedy", "-push0"], [{"cmd": "sfs", "text": t} for t in texts])], timeout=30)
+    jobs = []
+    for wrote, rs in zip(("on", "off"), first):
+        dicts = [(b["plain"], b["sfs"]) for r in rs for b in r.get("blocks", []) if b.get("sfs")]
+        for reads, argv in (("on", ["-greedy"]), ("off", ["-greedy", "-push0"])):
+            jobs.append((wrote, reads, argv, [{"cmd": "opt_sfs", "sfs": d, "_plain": p} for p, d in dicts]))
+    res = pool.run_matrix([(argv, [{k: v for k, v in c.items() if not k.startswith("_")} for c in cmds]) for _, _, argv, cmds in jobs], timeout=60)
+    cases, seen = [], set()
+    cnt = {"specification_dicts": sum(len(j[3]) for j in jobs), "blocks": 0, "exceptions": 0, "cross_mode": 0}
+    for (wrote, reads, argv, cmds), rs in zip(jobs, res):
+        for cmd, r in zip(cmds, rs):
+            if r.get("killed") or "exc" in r or "worker_exc" in r:
+                cnt["exceptions"] += 1
+                continue
+            for b in r.get("blocks", []):
+                if "exc" in b or "costs" not in b or b.get("ids") is None:
+                    cnt["exceptions"] += 1
+                    continue
+                cnt["blocks"] += 1
+                cnt["cross_mode"] += 1 if wrote != reads else 0
+                c = {"kind": "block", "push0": reads, "orig": nv(b["orig"]), "out": nv(b["opt"]),
+                     "size": b["costs"]["size"], "gas": b["costs"]["gas"], "length": b["costs"]["length"]}
+                k = json.dumps(c, sort_keys=True)
+                if k in seen:
+                    continue
+                seen.add(k)
+                c["_opts"], c["_argv"], c["_src"], c["_plain"] = "sfs-mode: written with PUSH0 %s, optimized with PUSH0 %s" % (wrote, reads), argv, cmd["_plain"][:300], b.get("plain", "")
+                cases.append(c)
+    return cases, cnt
+
+
 def nv(instrs):
     return [{"n": str(i["name"]), "v": str(i["value"]) if i.get("value") not in (None, "") else ""} for i in instrs]
 
@@ -250,6 +290,10 @@ def run(tier):
     jobs = [(name, argv, [dict(c) for c in cmds]) for name, argv in (OPTSETS_BLOCK[:6] if tier == "quick" else OPTSETS_BLOCK)]
     results = skeldoc.run_matrix_capped([(argv, cs) for _, argv, cs in jobs], 30)
     bcases, cnt = block_cases(jobs, results)
+    mcases, mcnt = sfs_mode_cases(tier, seed, [c["text"] for c in cmds if "text" in c])
+    if mcnt["cross_mode"] == 0:
+        raise common.MachineryError("vacuity guard: the -sfs mode was never driven across PUSH0 settings")
+    bcases += mcases
     t1 = time.time()
     scases, rsh = select_cases(tier, seed)
     t2 = time.time()
@@ -279,7 +323,7 @@ def run(tier):
            "block_cases": len(bcases), "select_cases": len(scases), "zero_push_introduced_push0_on": intro_on,
            "zero_push_introduced_push0_off": intro_off, "gas_not_comparable": gas_skipped, "undecided_cases": n_undec,
            "undecided_samples": [{"case": i, "why": w[:160]} for i, w in sorted(undec.items())[:5]],
-           "select_events": sel_events, "unselected_contracts_compared": others_cmp, "driver": cnt, "corpus": gstats,
+           "select_events": sel_events, "unselected_contracts_compared": others_cmp, "driver": cnt, "sfs_mode": mcnt, "corpus": gstats,
            "option_sets": [n for n, _, _ in jobs] + [o["name"] for o in OPTSETS_SELECT],
            "violating_verdicts": len(viol), "known_findings_hit": out["known_hit"], "new_violations": len(out["new"]),
            "exhaustive": False, "blocks_wall_s": round(t1 - t0, 1), "select_wall_s": round(t2 - t1, 1), "tlc_wall_s": round(st["wall"], 1),
